@@ -255,6 +255,24 @@ func c11Siblings(c *Ctx) {
 				}
 			}
 			r.Check(okS, "R-C11.3", "types.(*"+tname+").SetPreviousEncryptionKey roles", p.Pos(setp.Pos()), "records (old key ID, old own private, old peer public) of the prior record", "the retained previous key does not record the prior record's own private / peer public key and key ID in their roles")
+			// the prior pair is always recorded: no success return without the store
+			stBlocks := map[*ssa.BasicBlock]bool{}
+			for _, st := range storesToField(setp, "types."+tname, "PreviousEncryptionKey") {
+				stBlocks[st.Block()] = true
+			}
+			if len(stBlocks) > 0 {
+				gNone := core.Guard{Name: "(nothing skips recording)", Match: func(ssa.Value) (int, bool) { return 0, false }}
+				for i, ret := range core.SuccessReturns(setp) {
+					if stBlocks[ret.Block()] {
+						// the store sits in the returning block itself (it precedes the return)
+						r.OK("R-C11.3", fmt.Sprintf("types.(*%s).SetPreviousEncryptionKey success-return#%d records", tname, i), p.Pos(ret.Pos()), "the previous key is stored in the returning block")
+						continue
+					}
+					res := core.CutReachAvoid(p, setp, gNone, stBlocks, ret.Block())
+					r.Check(!res.Reachable, "R-C11.3", fmt.Sprintf("types.(*%s).SetPreviousEncryptionKey success-return#%d records", tname, i), p.Pos(ret.Pos()),
+						"every success return is preceded by the store of the previous key", "a success return is reachable without recording the prior key pair (e.g. when an entry already exists): messages under that pair can no longer be decrypted")
+				}
+			}
 		}
 		if prevm != nil {
 			cs := callsTo(prevm, shared)
